@@ -232,7 +232,8 @@ Definition mon_step (D bound : Z) (ms : mstate) (o : op) (b : obs) : N * mstate 
   match o, b with
   | OTick now ts _, BTick per => mon_tick D bound now ms per ts
   | OPkt _ bytes now, BPkt pre prek post postk _ =>
-    let c3 := if sample_taken pre prek post postk && negb (echo_ok pre bytes now) then 3%N else 0%N in
+    (* ... and the echo that yields a sample closes the probe: one probe, at most one sample *)
+    let c3 := if sample_taken pre prek post postk && (negb (echo_ok pre bytes now) || o_waiting post) then 3%N else 0%N in
     (first_code c3 (first_code (lobs_code pre) (lobs_code post)), ms)
   | OMark _, BMark post =>
     (* a soft reset cancels the outstanding probe: "while a probe is outstanding" is judged since the
